@@ -64,9 +64,15 @@ def trustedOf (t : String) : String × String :=
 
 def podsOf (tok : String) : List Pod := (decList tok).map (fun p => podOfFields (decFields p))
 
-def clustersOf : List String → List (String × Slot)
-  | id :: pods :: rest => (dec id, { cur := some { pods := podsOf pods } }) :: clustersOf rest
+def clustersOf (hidden : List String) : List String → List (String × Slot)
+  | id :: pods :: rest => (dec id, { cur := some { pods := podsOf pods, hidden := hidden } }) :: clustersOf hidden rest
   | _ => []
+
+/-- optional trailing `hide <namespaces>` of an `na` line -/
+def splitHide (l : List String) : List String × List String :=
+  match l.reverse with
+  | ns :: "hide" :: rest => (rest.reverse, decList ns)
+  | _ => (l, [])
 
 def updCluster (id : String) (f : Slot → Slot) : List (String × Slot) → List (String × Slot)
   | [] => []
@@ -86,6 +92,7 @@ structure DState where
   trusted  : List (String × String) := []
   clusters : List (String × Slot) := []
   naSet    : Bool := false
+  hidden   : List String := []
 
 def showIssue (srv : Server) (req : Request) (r : Resp CertData) : String :=
   match r with
@@ -125,11 +132,16 @@ def stepIssue (d : DState) (toks : List String) : DState × String :=
     let p := podOfFields (decFields (dec pod))
     let cs := onSlot (dec cl) (onCurPods (fun ps => ps ++ [p])) d.clusters
     ({ d with clusters := cs }, "ev-ok")
+  | ["pod", "upd", cl, pod] =>
+    -- an UPDATE of the pod with that namespace/name (late scheduling, phase change, ...)
+    let p := podOfFields (decFields (dec pod))
+    let cs := onSlot (dec cl) (onCurPods (fun ps => ps.map (fun q => if q.ns == p.ns && q.name == p.name then p else q))) d.clusters
+    ({ d with clusters := cs }, "ev-ok")
   | ["pod", "del", cl, ns, name] =>
     let cs := onSlot (dec cl) (onCurPods (fun ps => ps.filter (fun p => !(p.ns == dec ns && p.name == dec name)))) d.clusters
     ({ d with clusters := cs }, "ev-ok")
   | ["cl", "upd", id, pods, run] =>
-    let cs := onSlot (dec id) (fun s => if run == "1" then (s.updated (podsOf pods)).synced else s.updated (podsOf pods)) d.clusters
+    let cs := onSlot (dec id) (fun s => if run == "1" then (s.updated (podsOf pods) d.hidden).synced else s.updated (podsOf pods) d.hidden) d.clusters
     ({ d with clusters := cs }, "ev-ok")
   | ["cl", "sync", id] =>
     -- the harness starts the client of a still pending update (none after the cluster was deleted)
@@ -139,12 +151,13 @@ def stepIssue (d : DState) (toks : List String) : DState × String :=
     let cs := onSlot (dec id) (Slot.deleted repoFixes.swapCleanup) d.clusters
     ({ d with clusters := cs }, "ev-ok")
   | ["cl", "add", id, pods] =>
-    let cs := onSlot (dec id) (fun s => s.added (podsOf pods)) d.clusters
+    let cs := onSlot (dec id) (fun s => s.added (podsOf pods) d.hidden) d.clusters
     ({ d with clusters := cs }, "ev-ok")
   | "nap" :: rest | "na" :: rest =>
     match rest with
     | trusted :: _n :: cl =>
-      ({ d with naSet := true, trusted := (decList trusted).map trustedOf, clusters := clustersOf cl }, "na-ok")
+      let ch := splitHide cl
+      ({ d with naSet := true, trusted := (decList trusted).map trustedOf, clusters := clustersOf ch.2 ch.1, hidden := ch.2 }, "na-ok")
     | _ => ({ d with naSet := true, trusted := [], clusters := [] }, "na-ok")
   | ["req", ctx, outs, csr, ttl, imp, signer, cluster, junk] =>
     match d.ca with
@@ -269,7 +282,8 @@ def evalSpec (toks : List String) (clusterOverride : Option (Option (List String
   match toks with
   | ["oidc", tr, td, expected, form, tokkind, sub, audkind, aud] =>
     let verdict : OidcTok :=
-      if tokkind != "ok" then .rejected
+      if tokkind == "okfloat" then .badClaims   -- fractional `exp`: the verifier accepts it, JwtPayload.Exp (int) does not unmarshal
+      else if tokkind != "ok" then .rejected
       else if audkind == "string" then .badClaims
       else .claims (if sub == "absent" then "" else dec sub) (if audkind == "absent" then [] else decList aud)
     -- the verifier accepts (with `verdict`) only the token minted for this line; any other token is rejected
@@ -361,11 +375,34 @@ def stepReqA (d : DState) (toks : List String) : DState × String :=
         ({ d with clock := now }, showIssue srv req (createCertificateFull repoFixes id srv c [r.res] req now))
   | _ => (d, "bad-op")
 
+/-- `reqm <authspecs> ...`: several REAL authenticators, in order, in one server. -/
+def stepReqM (d : DState) (toks : List String) : DState × String :=
+  match toks with
+  | [specs, csr, ttl, imp, signer, cluster, junk] =>
+    match d.ca with
+    | none => (d, "no-ca")
+    | some ca =>
+      if !d.naSet then (d, "no-ca") else
+      let clusterIDs := if cluster == "-" then none else some (decList cluster)
+      let rs := (decList specs).filterMap (fun sp => evalSpec (words sp) (some clusterIDs))
+      if rs.length != (decList specs).length then (d, "bad-op")
+      else if rs.any (·.rejected) then (d, "reject")
+      else
+        let c : Ctx := { xdsAuth := true, hasPeer := rs.all (·.hasPeer), tls := rs.all (·.tls), authPlaintext := false, clusterIDs := clusterIDs }
+        let req : Request := { csr := csrOfFields (decFields (dec csr)), validity := parseInt ttl,
+                               impersonated := metaStr imp, certSigner := metaStr signer,
+                               otherMeta := (List.range (parseInt junk).toNat).map (fun i => (toString i, "junk")) }
+        let srv := Server.new ca d.trusted d.clusters
+        let now := d.clock + tick
+        ({ d with clock := now }, showIssue srv req (createCertificateFull repoFixes id srv c (rs.map (·.res)) req now))
+  | _ => (d, "bad-op")
+
 def stepD (d : DState) (toks : List String) : DState × String :=
   match toks with
   | "case" :: _ => ({}, "ok")
   | "authn" :: rest => (d, stepAuthn rest)
   | "reqa" :: rest => stepReqA d rest
+  | "reqm" :: rest => stepReqM d rest
   | _ => stepIssue d toks
 
 end IstioModel.C09
